@@ -214,6 +214,54 @@ func Filter(n int, first bool) Iter[int] {
 	return nil
 }
 
+// Sub yields only for the last outer index: mostly empty sub-generators.
+func Sub(i, n int, first bool) Iter[int] {
+	if i == n-1 || (first && i == 0) {
+		Yield(i)
+	}
+	return nil
+}
+
+// FlatMap: the loop BODY advances another generator in every iteration of the non-yielding stretch.
+func FlatMap(n int, first bool) Iter[int] {
+	for i := 0; i < n; i++ {
+		mon.At(i)
+		YieldFrom(Sub(i, n, first))
+	}
+	return nil
+}
+
+// ManualPull: the body pulls from another generator by hand.
+func ManualPull(n int, first bool) Iter[int] {
+	src := Source(n)
+	i := 0
+	for i < n {
+		mon.At(i)
+		if !src.MoveNext() {
+			break
+		}
+		v := src.Current()
+		if v == n-1 || (first && v == 0) {
+			Yield(v)
+		}
+		i++
+	}
+	return nil
+}
+
+func RangeOtherInBody(n int, first bool) Iter[int] {
+	for i := 0; i*4 < n; i++ {
+		for v := range Source(4) {
+			k := i*4 + v
+			mon.At(k)
+			if k == n-1 || (first && k == 0) {
+				Yield(k)
+			}
+		}
+	}
+	return nil
+}
+
 // Chain delegates d levels deep; the depth is sampled in the innermost body.
 func Chain(d int, out *int) Iter[int] {
 	if d == 0 {
